@@ -71,3 +71,100 @@ example : (run (init true [.good, .bad]) [.d, .d, .c, .c, .u, .d, .d, .c, .c, .c
           (run (init true [.good, .bad]) [.d, .d, .c, .c, .u, .d, .d, .c, .c, .c, .u]).errSeen = true := by decide
 
 end Ftdc.Props.C05
+
+/-! ## a layer above, as a transition system
+
+The document, matrix and series iterators run one worker that, when the iterator below has ended,
+records the lower `Err()` in its own catcher and closes its own pipe — in that order (`addFirst`;
+the other order is the pinned commit's matrix worker, seeded change seed-C05-matrix-defer-order).
+The consumer of the layer sees `Next() == false` when the pipe is closed and then reads `Err()`. -/
+namespace Ftdc.Props.C05.UpperLayer
+
+inductive WPc where
+  | running | adding | closing | done
+  deriving DecidableEq, Repr
+
+structure St where
+  addFirst : Bool
+  lowerErr : Bool              -- what `chunks.Err()` returns once the layer below has ended (its own theorem)
+  wpc : WPc := .running
+  errIn : Bool := false        -- the worker's catcher holds the lower error
+  pipeClosed : Bool := false
+  sawFalse : Bool := false
+  errSeen : Bool := false
+  deriving DecidableEq, Repr
+
+inductive Pid where
+  | w | u
+  deriving DecidableEq, Repr
+
+def step (s : St) : Pid → Option St
+  | .w =>
+    match s.wpc with
+    | .running => some { s with wpc := if s.addFirst then .adding else .closing }   -- the lower iterator has ended
+    | .adding => some { s with errIn := s.lowerErr, wpc := if s.addFirst then .closing else .done }
+    | .closing => some { s with pipeClosed := true, wpc := if s.addFirst then .done else .adding }
+    | .done => none
+  | .u => if s.pipeClosed ∧ !s.sawFalse then some { s with sawFalse := true, errSeen := s.errIn } else none
+
+def run (s : St) (sched : List Pid) : St := sched.foldl (fun s p => (step s p).getD s) s
+
+/-- with the repaired order the pipe is closed only after the error has been recorded -/
+def Inv (s : St) : Prop :=
+  s.addFirst = true ∧ (s.pipeClosed = true → s.errIn = s.lowerErr) ∧ (s.sawFalse = true → s.errSeen = s.lowerErr) ∧
+  (s.pipeClosed = true → s.wpc = .done) ∧ (s.wpc = .closing ∨ s.wpc = .done → s.errIn = s.lowerErr)
+
+theorem inv_step (s s' : St) (p : Pid) (h : Inv s) (hs : step s p = some s') : Inv s' ∧ s'.lowerErr = s.lowerErr := by
+  obtain ⟨h1, h2, h3, h4, h5⟩ := h
+  cases p with
+  | w =>
+    simp only [step] at hs
+    cases hw : s.wpc with
+    | running => simp [hw, h1] at hs; subst hs; exact ⟨⟨rfl, by simpa using h2, by simpa using h3, by
+        intro hc; have := h4 hc; simp [hw] at this, by simp⟩, rfl⟩
+    | adding => simp [hw, h1] at hs; subst hs; exact ⟨⟨rfl, by simp, by
+        intro hsf; simp at hsf; have := h3 hsf; simpa using this, by
+        intro hc; have := h4 hc; simp [hw] at this, by simp⟩, rfl⟩
+    | closing => simp [hw, h1] at hs; subst hs; exact ⟨⟨rfl, by
+        intro _; simpa using h5 (Or.inl hw), by simpa using h3, by simp, by
+        intro _; simpa using h5 (Or.inl hw)⟩, rfl⟩
+    | done => simp [hw] at hs
+  | u =>
+    simp only [step] at hs
+    split at hs
+    · rename_i hc
+      simp only [Option.some.injEq] at hs; subst hs
+      exact ⟨⟨h1, h2, by intro _; simpa using h2 hc.1, h4, h5⟩, rfl⟩
+    · simp at hs
+
+/-- **on every schedule of the worker and the consumer: once `Next()` has returned false, the layer's
+`Err()` is what the layer below reported** — so a non-nil error below is a non-nil error above -/
+theorem upper_layer_err_never_lost (lowerErr : Bool) (sched : List Pid) :
+    let s := run { addFirst := true, lowerErr := lowerErr } sched
+    s.sawFalse = true → s.errSeen = lowerErr := by
+  have : ∀ (sched : List Pid) (s : St), Inv s → Inv (run s sched) ∧ (run s sched).lowerErr = s.lowerErr := by
+    intro sched
+    induction sched with
+    | nil => intro s h; exact ⟨h, rfl⟩
+    | cons p sched ih =>
+      intro s h
+      simp only [run, List.foldl_cons]
+      cases hs : step s p with
+      | none => simpa [run] using ih s h
+      | some s' =>
+        obtain ⟨i1, i2⟩ := inv_step s s' p h hs
+        obtain ⟨j1, j2⟩ := ih s' i1
+        simp only [Option.getD_some]
+        exact ⟨by simpa [run] using j1, by rw [← i2]; simpa [run] using j2⟩
+  intro s hsf
+  obtain ⟨hinv, hl⟩ := this sched { addFirst := true, lowerErr := lowerErr }
+    ⟨rfl, by simp, by simp, by simp, by simp⟩
+  have := hinv.2.2.1 hsf
+  rw [this]; exact hl
+
+/-- with the other order (close, then record) the error is lost on a three-step schedule -/
+theorem upper_layer_err_lost_if_closed_first :
+    (run { addFirst := false, lowerErr := true } [.w, .w, .u]).sawFalse = true ∧
+    (run { addFirst := false, lowerErr := true } [.w, .w, .u]).errSeen = false := by decide
+
+end Ftdc.Props.C05.UpperLayer
